@@ -8,6 +8,7 @@ import Peppi.Rollbacks
 import Peppi.Version
 import Peppi.ShiftJis
 import Peppi.Lemmas.C09P
+import Peppi.Lemmas.PeppiRead
 open Peppi
 
 def hexVal (c : Char) : Nat := if c.isDigit then c.toNat - 48 else if 'a' ≤ c ∧ c ≤ 'f' then c.toNat - 87 else 0
@@ -48,6 +49,31 @@ def summary (g : Game) : String :=
     s!"P{p.port}:{p.leader.pre.length}/{p.leader.post.length}/{showValid p.leader.valid}/{colsSum p.leader.pre}/{colsSum p.leader.post}" ++
     (match p.follower with | none => "" | some d => s!"+F:{d.pre.length}/{d.post.length}/{showValid d.valid}/{colsSum d.pre}/{colsSum d.post}")
   s!"ok v={g.start.version.major}.{g.start.version.minor}.{g.start.version.patch} ids={f.id} ports={ports} start={f.start.map (·.length)}/{f.start.map colsSum} end={(endRows g).map (·.length)}/{(endRows g).map colsSum} off={f.itemOff} item={f.item.map (·.length)}/{f.item.map colsSum} gecko={g.gecko.map fun c => (c.actualSize, c.bytes.length)} dbl={g.doubleGameEnd} end?={g.fend.isSome} meta?={g.metadata.isSome} hashed={g.hashedLen}"
+
+/-- one entry of the abstract `.slpp` archive as the harness describes it (externals already applied) -/
+def parseEntry (tok : String) : Option (PEntry String) :=
+  match tok.splitOn ":" with
+  | ["ot"] => some .other
+  | ["pj", "err"] => some (.peppiJson (.err "json"))
+  | "pj" :: "ok" :: vok :: rest =>
+    -- the hash itself contains a colon (`xxh3:...`): everything between the version flag and the last field
+    match rest.reverse with
+    | q :: hrev =>
+      let hash := ":".intercalate hrev.reverse
+      some (.peppiJson (.ok ⟨vok == "1", if hash == "-" then none else some hash, if q == "-" then none else some (q == "1")⟩))
+    | [] => none
+  | ["md", "obj"] => some (.metadataJson (.ok (some "m")))
+  | ["md", "null"] => some (.metadataJson (.ok none))
+  | ["md", "bad"] => some (.metadataJson (.err "json"))
+  | ["sr", h] => some (.startRaw (parseHex h))
+  | ["er", h] => some (.endRaw (parseHex h))
+  | ["gk", h] => some (.geckoRaw (parseHex h))
+  | ["fa", m, items] =>
+    let its := if items.isEmpty then [] else (items.splitOn ",").map fun t =>
+      if t.startsWith "c" then SItem.chunk (t.drop 1).toString else if t == "w" then SItem.waiting else SItem.fail
+    some (.framesArrow (m == "1") its)
+  | ["fa", m] => some (.framesArrow (m == "1") [])
+  | _ => none
 
 /-- the incremental API driven like the harness drives the real one: header, start, one event per call
     while `bytes_read < raw_len`, then what `read` does after its loop -/
@@ -182,6 +208,17 @@ partial def loop (h : IO.FS.Stream) : IO Unit := do
     match assertCurrentVersion (a.toNat!, b.toNat!, c.toNat!) with
     | .ok _ => IO.println "ok"
     | _ => IO.println "err"
+  | ["pread", skip, trailer, toks] =>
+    match (toks.splitOn ";").mapM parseEntry with
+    | none => IO.println "bad-op"
+    | some es =>
+      (match peppiRead T (skip == "1") (trailer == "1") es with
+       | .ok g =>
+         let v := g.start.version
+         let gk := match g.gecko with | some (b, n) => s!"({n},{b.length})" | none => "none"
+         IO.println s!"ok v={v.major}.{v.minor}.{v.patch} end?={g.fend.isSome} meta={if g.metadata.isSome then "some" else "none"} gecko={gk} frames={(g.frames.getD "0")} hash={g.hash.getD "none"} quirks={match g.quirks with | some b => toString b | none => "none"}"
+       | .err e => IO.println s!"err {e}"
+       | .panic p => IO.println s!"panic {p}")
   | ["consts"] =>
     IO.println s!"max={MAX_SUPPORTED_VERSION.major}.{MAX_SUPPORTED_VERSION.minor}.{MAX_SUPPORTED_VERSION.patch} first_index={FIRST_INDEX} min_peppi={PEPPI_MIN_VERSION.1}.{PEPPI_MIN_VERSION.2.1}.{PEPPI_MIN_VERSION.2.2}"
   | _ => IO.println "n/a"
